@@ -133,15 +133,20 @@ pub fn canon_val(v: &str) -> String {
 
 /// run a script with the SDK + emit/inc/lt; outcome in the canonical form of lean/DuckModel/Drv/C04.lean
 pub fn run_structured(text: &str, vars: &[(String, String)]) -> String {
-    run_structured_with(text, vars, false)
+    run_structured_with(text, vars, false, 1500)
+}
+
+/// the same with a short watchdog (malformed programs that may loop; the answer is then `timeout`)
+pub fn run_structured_short(text: &str, vars: &[(String, String)], ms: u64) -> String {
+    run_structured_with(text, vars, false, ms)
 }
 
 /// the same, with `emit __halt__` raising the embedder's halt flag from inside the script (C13)
 pub fn run_structured_halting(text: &str, vars: &[(String, String)]) -> String {
-    run_structured_with(text, vars, true)
+    run_structured_with(text, vars, true, 1500)
 }
 
-fn run_structured_with(text: &str, vars: &[(String, String)], halting: bool) -> String {
+fn run_structured_with(text: &str, vars: &[(String, String)], halting: bool, ms: u64) -> String {
     let seen = Rc::new(RefCell::new(vec![]));
     let raised = Rc::new(std::cell::Cell::new(false));
     let mut ctx = sdk_context();
@@ -151,7 +156,7 @@ fn run_structured_with(text: &str, vars: &[(String, String)], halting: bool) -> 
     for (k, v) in vars {
         ctx.variables.insert(k.clone(), v.clone());
     }
-    let halt = guarded_halt(1500);
+    let halt = guarded_halt(ms);
     let res = duckscript::runner::run_script(text, ctx, Some(quiet_env(Some(halt.clone()))));
     if halt.load(Ordering::SeqCst) && !raised.get() {
         return "timeout".to_string();
